@@ -109,7 +109,7 @@ let predict (c : string) (obs : string) : string * string * bool =
         | _ -> "BAD:unparsable-observation" in
       let nontrivial = n >= 2 && min tokens an >= 2 in
       (pred, v, nontrivial)
-  | ["burst"; per; t; a; _n; _spec] ->
+  | [("burst" | "cfgpool"); per; t; a; _n; _spec] ->
       (* no log: the totals C03_conservation / C03_counters / C03_unfired determine *)
       let per = bool_of_field per and tn = int_of_string t and an = int_of_string a in
       (match split_blank obs with
